@@ -95,16 +95,20 @@ func defaultStyle() *style {
 
 type election[T comparable] struct {
 	votes map[T]int
+	order []T // The voted-for values in order of their first appearance.
 }
 
 func newElection[T comparable]() election[T] {
-	return election[T]{make(map[T]int)}
+	return election[T]{make(map[T]int), nil}
 }
 
 // vote casts a vote for the style, but only if it’s explicit.
 func (e *election[T]) vote(style styleProp[T]) {
 	if !style.isExplicit {
 		return
+	}
+	if _, hasVotes := e.votes[style.value]; !hasVotes {
+		e.order = append(e.order, style.value)
 	}
 	e.votes[style.value] += 1
 }
@@ -113,7 +117,10 @@ func (e *election[T]) vote(style styleProp[T]) {
 func (e *election[T]) tallyUp(defaultValue T) T {
 	max := 0
 	result := defaultValue
-	for value, count := range e.votes {
+	// In case of a tie, the value that appears first in the file wins.
+	// (Iterating over the map directly would make the outcome random.)
+	for _, value := range e.order {
+		count := e.votes[value]
 		if count > max {
 			max = count
 			result = value
